@@ -244,7 +244,9 @@ func (a *adapter) Data(data []byte, streamEnded bool) error {
 		default:
 			panic(fmt.Sprintf("unexpected state: %v", a.state))
 		}
-		if a.buffer.Len() == 0 {
+		// Stops once the buffer is drained - unless the prefix just read announces a zero-length
+		// message: that message is complete and must be delivered with this frame.
+		if a.buffer.Len() == 0 && !(a.state == readingMessageData && a.length == 0) {
 			return nil
 		}
 	}
